@@ -452,7 +452,7 @@ function injectModelled(rng, p, kind) {
 }
 const UNSUPPORTED_SNIPPETS = ["{ f(): void }", "unique symbol", "this", "[string?]", "typeof undefinedValue", 'import("./nofile").T', "{ get x(): number }", "new () => string", "{ [k: string]: number; [j: number]: number }",
   "keyof Missing9", "Missing8[\"a\"]", "string extends infer U ? U : never", "{ readonly [K in keyof Missing7]: 1 }", "abstract new () => void", "asserts x is string", "`${Missing6}`", "Array", "Record<string>", "Map<string>", "Exclude<number, 1>",
-  "Set", "StringFormat<123>", "NumberFormat<\"unregisteredFmt\">", "[...string]", "[...string[], ...number[]]", "object[\"x\"]", "1n", "-1", "void[]", "never[]", "A.B.C", "typeof import(\"./x\")", "{ a: string }[\"b\"]"];
+  "Set", "StringFormat<123>", "NumberFormat<\"unregisteredFmt\">", "[...string]", "[...string[], ...number[]]", "object[\"x\"]", "1n", "-1", "1e999", "-1e999", "void[]", "never[]", "A.B.C", "typeof import(\"./x\")", "{ a: string }[\"b\"]"];
 function textMutate(rng, src) {
   const i = rng.below(src.length + 1);
   switch (rng.below(6)) {
@@ -460,7 +460,7 @@ function textMutate(rng, src) {
     case 1: return src.slice(0, i) + rng.pick(["{", "}", "<", ">", "(", ")", "[", "|", "&", ";", "\"", "`", "=", "?", ":", "é", "\n", "/*", "${"]) + src.slice(i);
     case 2: { const m = [...src.matchAll(/\b(string|number|boolean|null|any)\b/g)]; if (!m.length) return src; const k = rng.pick(m); return src.slice(0, k.index) + rng.pick(UNSUPPORTED_SNIPPETS) + src.slice(k.index + k[0].length); }
     case 3: return src.replace("parse.buildParsers", rng.pick(["parse.buildParsers", "buildParsers", "x.y.buildParsers", "parse.buildParsers<{}>();\nparse.buildParsers"]));
-    case 4: return rng.pick(["export default 1;\nexport default 2;\n", "enum E { A, B = \"x\" }\n", "declare const v: unique symbol;\n", "export * from \"./entry\";\n", "import X from \"./entry\";\n", "type Self = Self | string;\n", "interface I extends I {}\n"]) + src;
+    case 4: return rng.pick(["export default 1;\nexport default 2;\n", "enum E { A, B = \"x\" }\n", "declare const v: unique symbol;\n", "export * from \"./entry\";\n", "import X from \"./entry\";\n", "type Self = Self | string;\n", "interface I extends I {}\n", "const va = vb;\nconst vb = va;\ntype Vc = typeof va;\n", "const vs = { k: vs };\ntype Vs = typeof vs;\n"]) + src;
     default: return src.slice(0, i) + src.slice(i).replace(/[A-Za-z]+/, (w) => w.split("").reverse().join(""));
   }
 }
@@ -515,7 +515,7 @@ function valuesProject(rng) {
 // shapes behind the repaired D86–D89: enums with string-named members, user types called like a built-in used as type
 // arguments next to the built-in, generics that re-instantiate themselves with larger arguments, circles of re-exports
 function oddProject(rng) {
-  switch (rng.below(6)) {
+  switch (rng.below(7)) {
     case 0: {
       const ms = ['"a-b" = "x"', 'B = "y"', '"c d" = 1', "D", 'E = "e"'].filter(() => rng.chance(2, 3));
       if (!ms.length) ms.push('"k-1" = "v"');
@@ -554,6 +554,13 @@ function oddProject(rng) {
         ['import { z as y } from "./a";', "{ v: typeof y }"], ['import { Z } from "./a";', "Z"], ['import * as NS from "./a";', "NS.Z"],
         ['import type { Z } from "./a";', "Z[]"], ['import { nope } from "./a";', "typeof nope"], ['import * as NS from "./a";', "typeof NS"]]);
       return [["entry.ts", `${imp}\nparse.buildParsers<{ E0: ${use} }>();\n`], ...files];
+    }
+    case 5: {
+      // constants defined in terms of each other, and numeric literals beyond the range of a double
+      const shape = rng.pick(["const a = b;\nconst b = a;\ntype T = typeof a;", "const a = { k: b };\nconst b = { k: a };\ntype T = typeof a;",
+        "const a = [a];\ntype T = typeof a;", "const a = { ...b };\nconst b = { ...a };\ntype T = typeof b;", "const a = { k: 1 };\nconst b = { p: a, q: a };\ntype T = typeof b;",
+        "type T = 1e999 | 2;", "type T = -1e999;", "type T = { k: 1e400 };", "const inf = 1e999;\ntype T = typeof inf;", "type T = `${1e999}`;"]);
+      return [["entry.ts", shape + "\nparse.buildParsers<{ E0: T }>();\n"]];
     }
     default: {
       // (sometimes far beyond any nesting limit: the answer must then be a diagnostic, not an exhausted stack)
